@@ -114,6 +114,8 @@ pub fn explore<M: Model>(ctx: &Ctx, family: &str, model: &M, opts: ExploreOpts) 
         let out: Mutex<Vec<(Vec<M::Ev>, u64)>> = Mutex::new(vec![]);
         let capped = AtomicBool::new(false);
         let level_seen: Mutex<HashSet<u64>> = Mutex::new(HashSet::new());
+        // canonical states whose probe failed: no transition into them yields a successor (as when every transition is probed)
+        let failed_fps: Mutex<HashSet<u64>> = Mutex::new(HashSet::new());
         let once = opts.dedup && model.probe_once_per_state();
         let seen_ref = &seen;
         let nthreads = util::workers().min(frontier.len()).max(1);
@@ -167,8 +169,13 @@ pub fn explore<M: Model>(ctx: &Ctx, family: &str, model: &M, opts: ExploreOpts) 
                             probes_skipped.fetch_add(1, Ordering::Relaxed);
                             return Ok((fp2, None));
                         }
-                        let class = model.probe(sys, &h2)?;
-                        Ok((fp2, Some(class)))
+                        match model.probe(sys, &h2) {
+                            Ok(class) => Ok((fp2, Some(class))),
+                            Err(f) => {
+                                failed_fps.lock().unwrap().insert(fp2);
+                                Err(f)
+                            }
+                        }
                     });
                     match res {
                         Ok(Ok((fp2, class))) => {
@@ -201,6 +208,10 @@ pub fn explore<M: Model>(ctx: &Ctx, family: &str, model: &M, opts: ExploreOpts) 
         }
         // merge deterministically: sort successors by (history as JSON) so that the first history per state is stable
         let mut succ = out.into_inner().unwrap();
+        let failed = failed_fps.into_inner().unwrap();
+        if !failed.is_empty() {
+            succ.retain(|(_, fp)| !failed.contains(fp));
+        }
         succ.sort_by_cached_key(|(h, _)| serde_json::to_string(h).unwrap());
         let mut next: Vec<(Vec<M::Ev>, u64)> = vec![];
         let mut level: HashSet<u64> = HashSet::new();
@@ -301,8 +312,14 @@ where
     if !ctx.family_enabled(&name) {
         return;
     }
+    let violations_before = ctx.violation_count.load(Ordering::SeqCst);
     let res = explore(ctx, &name, model, ExploreOpts { max_depth: d, wall_cap, state_cap: u64::MAX, dedup: false });
     if res.stats.cap_hit.is_some() {
+        return;
+    }
+    if ctx.violation_count.load(Ordering::SeqCst) > 0 || violations_before > 0 {
+        // The audit guards the verdict HELD against an over-coarse canonical form. With violations on the table the verdict is
+        // VIOLATION anyway, and states behind a failed oracle are not expanded, so the two searches are not comparable.
         return;
     }
     // With dedup, a state first reached at depth k is not re-listed later; compare cumulative sets.
